@@ -28,8 +28,8 @@ def main(pid, path):
             import itertools
             inp = next(itertools.islice(c.native_inputs(), idx, idx + 1), inp)
         r = native.check_case(c, fn, inp, vars(m))
-        print("input:", json.dumps(inp, default=str)[:2000])
-        print("result:", "contract holds now" if r is None else json.dumps(r, default=str)[:2000])
+        print("input:", json.dumps(native._jsonable(inp), default=str)[:2000])
+        print("result:", "contract holds now" if r is None else json.dumps(native._jsonable(r), default=str)[:2000])
         print("holds now:" if r is None else "STILL FAILS")
         return 0 if r is None else 1
     print("obligation-level record (no concrete input):")
